@@ -27,6 +27,20 @@ CHECKS = {
              "max+1); on the real code every refused send (EAGAIN, EMSGSIZE, EINVAL) is followed by validation that counters, epoll "
              "registration and the number of bytes later flushed are those of the model state in which the call never happened.",
         ref="5/C03", tech="TLA+ model checking (TLC) + trace validation of shim-driven executions"),
+    "C04": dict(
+        text="spec/XcmLive.tla: two event-loop applications that follow the documented protocol (await, act only when xcm_fd is readable, "
+             "then the intended operation or finish) over the XcmCore operators, under an adversarial but fair lower layer; TLC checks the "
+             "safety form NoLostWakeup/Quiet as invariants and, under FairSpec (SF on event-loop turns with full credit, WF on buffer drain "
+             "and close), the temporal properties AllDelivered and CloseSeen for tcp, btcp and ux; deliberately broken designs must be "
+             "rejected (vacuity guard). C04_NoLostWakeup is also an invariant of the bounded spec/Xcm.tla configurations. Binding: (a) in "
+             "every recorded step of every execution poll(xcm_fd), the epoll registrations and the kernel's own poll result are compared "
+             "with Readable() of the model state (tag C04.lost_wakeup); (b) event-loop executions (harness command L) on tcp, btcp, ux, uxf, "
+             "tls, btls, utls: the applications trust only poll(xcm_fd), every call is validated as a trace step, and a run that gets stuck "
+             "with something owed (message accepted but undelivered, send still wanted, close unseen) is a lost wake-up; (c) blocking calls "
+             "run in a helper thread and a call that has not returned although the model says its event happened is C04.blocked.",
+        ref="5/C04", tech="TLA+ model checking with fairness (TLC liveness) + trace validation of event-loop executions",
+        note=CONN_NOTE + " 'Within bounded time' is judged only as: no descriptor readable for 1.5 s while the trace specification says something "
+             "is owed; establishment phases (resolution, TCP connect, TLS handshake) are covered by the C13/C05 machinery, not here."),
     "C06": dict(
         text="C06_Sticky, C06_DrainFirst on spec/Xcm.tla with errno injection and orderly close at every point; real executions with "
              "injected errnos, real close and real reset (SO_LINGER 0), raw peers dying mid-frame; the trace specification checks "
